@@ -331,10 +331,12 @@ func (p *ProjectRunner) getDoneProcess(name string) *Process {
 }
 
 func (p *ProjectRunner) getDoneOrRunningProcess(name string) *Process {
-	if doneProc := p.getDoneProcess(name); doneProc != nil {
-		return doneProc
+	// a process is added to the done ones before it is removed from the running ones:
+	// looking at the running ones first never misses a process that is ending meanwhile
+	if runningProc := p.getRunningProcess(name); runningProc != nil {
+		return runningProc
 	}
-	return p.getRunningProcess(name)
+	return p.getDoneProcess(name)
 }
 
 func (p *ProjectRunner) removeRunningProcess(process *Process) {
